@@ -115,6 +115,7 @@ type Interp struct {
 	peekSeq     int
 	inCond      bool
 	chanSeq     int
+	loopInit    map[string]Value // "<function>:<variable>" -> value the loop variable starts from
 	mainBlocked string // set by the scheduler when the harness body can never continue
 	appended    map[*Value]bool // Data buffers of packets that have been appended to a parent
 	staleChild  string          // set when such a buffer is written afterwards
@@ -997,6 +998,18 @@ func (fr *frame) visit(instr ssa.Instruction) bool {
 		for i, pred := range x.Block().Preds {
 			if fr.prev == pred {
 				fr.env[x] = fr.get(x.Edges[i])
+				// an inductive harness may start a named loop variable from an arbitrary value:
+				// the constant that enters the loop from outside is replaced once (vLoopInit)
+				if len(in.loopInit) > 0 {
+					if _, isConst := x.Edges[i].(*ssa.Const); isConst {
+						key := fr.fn.String() + ":" + x.Comment
+						if v, ok := in.loopInit[key]; ok {
+							fr.env[x] = v
+							delete(in.loopInit, key)
+							in.emit("loop.init", key)
+						}
+					}
+				}
 				break
 			}
 		}
